@@ -236,7 +236,7 @@ func gExec(cs *gCase) *gRun {
 	root := cs.Root
 	if p.Server == "os" {
 		if root == "" {
-			d, err := os.MkdirTemp("", "vh-gated-")
+			d, err := lib.MkScratch("vh-gated-")
 			if err != nil {
 				run.Fault = &gFault{Key: "harness/tmpdir", What: err.Error()}
 				return run
